@@ -136,6 +136,79 @@ fn t2q_value(len: u32, pat: u64, class: u32, neg: bool, pmax: u32) -> i64 {
     }
 }
 
+/// decimal-structured times: whole seconds s * 1e9 (and +-1 ns) for s from a boundary alphabet of
+/// second counts (powers of two +-1 up to 2^33, powers of ten, k * 10^j), the values a clock that
+/// ticks in whole seconds produces; the binary-structured sweep does not contain them.
+fn time_to_quantity_decimal(e: &mut Eng) {
+    let mut secs: Vec<i64> = vec![0, 1, 2, 3, 7, 10, 11, 59, 60, 3600, 86_400, 31_536_000];
+    for k in 0..=33u32 {
+        for d in [-1i64, 0, 1] {
+            secs.push((1i64 << k) + d);
+        }
+    }
+    let mut p10: i64 = 1;
+    for _ in 0..=9 {
+        for k in 1..=9i64 {
+            secs.push(k * p10);
+            secs.push(k * p10 + 1);
+            secs.push(k * p10 - 1);
+        }
+        p10 *= 10;
+    }
+    secs.retain(|&s| s >= 0 && s <= 9_223_372_035);
+    secs.sort();
+    secs.dedup();
+    let mut prev: Option<(i64, f32)> = None;
+    for sign in [1i64, -1] {
+        let mut all: Vec<i64> = Vec::new();
+        for &s in &secs {
+            for d in [-1i64, 0, 1] {
+                if let Some(t) = s.checked_mul(1_000_000_000).and_then(|x| x.checked_add(d)) {
+                    all.push(sign * t);
+                }
+            }
+        }
+        all.sort();
+        all.dedup();
+        prev = None;
+        for &t in &all {
+            e.executions += 1;
+            e.states += 1;
+            e.transitions += 1;
+            e.checks += 1;
+            if t.abs() >= 1 << 24 {
+                e.nontrivial += 1;
+            }
+            let q = Quantity::from(Time(t));
+            if !time_to_quantity_ok(t, q.value) {
+                e.violation("time-to-quantity:value", 1, || format!("Quantity::from(Time({})) = {:?} which is not within 2 ulp of {} s", t, q, t as f64 / 1e9));
+            }
+            if let Some((pt, pq)) = prev {
+                if pt < t && pq > q.value {
+                    e.violation("time-to-quantity:monotone", 1, || format!("Time({}) -> {:?} but Time({}) -> {:?}", pt, pq, t, q.value));
+                }
+            }
+            prev = Some((t, q.value));
+            match Time::try_from(q) {
+                Ok(back) => {
+                    let lim = ((t as i128).abs() >> 22) + 1;
+                    if ((back.0 as i128) - (t as i128)).abs() > lim {
+                        e.violation("time-round-trip", 1, || format!("Time({}) -> {:?} -> Time({})", t, q.value, back.0));
+                    }
+                }
+                Err(_) => e.violation("time-round-trip", 1, || format!("Time::try_from(Quantity::from(Time({}))) failed", t)),
+            }
+            // the mixed operators see the same conversion
+            let m = Quantity::new(2.0, MILLIMETER_PER_SECOND) * Time(t);
+            if m.value != 2.0 * q.value {
+                e.violation("units:mixed:q*t:differs-from-converted", 1, || format!("2 mm/s * Time({}) = {:?}", t, m));
+            }
+        }
+    }
+    let _ = prev;
+    e.sample(|| "Time(3_000_000_000 s as ns) -> 3.0e9 s; Time(2^31 s as ns - 1)".to_string());
+}
+
 fn time_to_quantity(e: &mut Eng, thorough: bool, budget: Budget) {
     // items: (len 1..=63) x (4096 patterns)
     let pat_bits: u64 = if thorough { 1 << 16 } else { 1 << 13 };
@@ -323,6 +396,8 @@ pub fn run(ctx: &Ctx) -> Vec<Eng> {
         if ctx.thorough { "63 x 2^16 patterns x 12" } else { "63 x 2^13 patterns x 12" },
     );
     time_to_quantity(&mut e2, ctx.thorough, budget);
+    time_to_quantity_decimal(&mut e2);
+    e2.rule.push_str("; plus decimal-structured times: whole seconds s*1e9 and +-1 ns for s from {2^k and 2^k+-1 for k<=33, k*10^j and +-1, calendar values} up to 9.2e9 s, both signs");
     let mut e3 = Eng::new(
         "c18-quantity-to-time",
         "EVERY finite f32 second value below 9e9 in magnitude (both signs, 2.7e9 values): |Time::try_from(v s) - v*1e9| <= one f32 rounding of the product + 1 ns (exact integer comparison)",
